@@ -562,19 +562,32 @@ func queryFace(ft *font.Font, w func(a ...any), seed uint64) {
 	for _, s := range ft.GSUB.Scripts {
 		w(s.Tag, len(s.LangSys))
 	}
-	// shaping with the face: 8 cmap runes, three directions
-	text := []rune{}
-	for i := 0; i < len(runes) && len(text) < 8; i++ {
-		text = append(text, runes[i])
-	}
+	// shaping with the face: the sampled cmap runes (up to ~66, spread over the character
+	// map, so that substitution / positioning / morx / kerx lookups are actually reached),
+	// in chunks of 24 runes, three directions, with the script of each chunk
+	text := append([]rune(nil), runes...)
 	for len(text) < 8 {
 		text = append(text, probeRunes[len(text)%4])
 	}
 	var sh shaping.HarfbuzzShaper
-	for _, dir := range []di.Direction{di.DirectionLTR, di.DirectionRTL, di.DirectionTTB} {
-		out := sh.Shape(shaping.Input{Text: text, RunStart: 0, RunEnd: len(text), Direction: dir, Face: face, Size: fixed.I(16),
-			Script: language.LookupScript(text[0]), Language: language.NewLanguage("en")})
-		w(len(out.Glyphs), out.Advance)
+	for lo := 0; lo < len(text); lo += 24 {
+		hi := lo + 24
+		if hi > len(text) {
+			hi = len(text)
+		}
+		chunk := text[lo:hi]
+		script := language.Common
+		for _, r := range chunk {
+			if sc := language.LookupScript(r); sc != language.Common && sc != language.Inherited && sc != language.Unknown {
+				script = sc
+				break
+			}
+		}
+		for _, dir := range []di.Direction{di.DirectionLTR, di.DirectionRTL, di.DirectionTTB} {
+			out := sh.Shape(shaping.Input{Text: chunk, RunStart: 0, RunEnd: len(chunk), Direction: dir, Face: face, Size: fixed.I(16),
+				Script: script, Language: language.NewLanguage("en")})
+			w(len(out.Glyphs), out.Advance)
+		}
 	}
 }
 
@@ -653,7 +666,7 @@ func Main() {
 	// deterministic file order
 	sort.Slice(files, func(i, j int) bool { return files[i].ID < files[j].ID })
 	nFiles := len(files)
-	per := run.Pick(120, 3000)
+	per := run.Pick(300, 3000)
 	total := nFiles * per
 
 	if run.Worker {
